@@ -20,6 +20,7 @@ CFG = {
                   "firing' and 'blocks can be fetched' are hypotheses realised by the scheduler of the simulation. Progress with "
                   "Byzantine validators still active in the suffix is not covered.",
     "harness": "c06",
+    "replay_by_seed": True,
     "n": {"quick": 900, "thorough": 30000},
     "rule": "as C01, each case followed by the synchronous suffix; non-trivial = distinct op whose outcome class differs from the "
             "modal class",
